@@ -1628,6 +1628,10 @@ func (w *World) opaque(f *Func) string {
 		why = "has a different signature than the one the rules were written for"
 	}
 	info := f.Pkg.TypesInfo
+	if why == "" && w.SplitIn[f.Name] != "" {
+		// the values were found again, but they still travel through flags and copies the shape rules do not follow
+		why = "carried values in a struct the rules have never seen (" + w.SplitIn[f.Name] + ", split into one local per field before analysis)"
+	}
 	if why == "" {
 		ast.Inspect(f.Decl, func(x ast.Node) bool {
 			if why != "" {
